@@ -342,50 +342,65 @@ Definition mem_level_str (level_sites : option nat) (m : mem_lmem) (sev : nat) :
   end.
 
 (* Parse after NewRecord: [r] is the struct as it came from the pool (RawLength and Timestamp
-   already assigned), m_own m = the input.  Returns the struct, memory, status, and whether the
-   message overflowed. *)
-Definition mem_parse (pa : mem_params) (level_sites : option nat) (m : mem_lmem) (r : mem_lrec)
-  : mem_res (mem_lmem * mem_lrec * mem_parse_status * bool) :=
+   already assigned), m_own m = the input.  First the header (nothing is written)... *)
+Inductive mem_head_res :=
+| HdBad (r : mem_lrec)                   (* onMalformed; the fields set so far stay until Release clears them *)
+| HdPanic (site : N)
+| HdOk (r : mem_lrec) (off len : nat).   (* header fields set; the rest [off, off+len) is the message *)
+
+Definition mem_first_is (c : N) (s : bytes) : bool :=
+  match s with x :: _ => x =? c | [] => false end.
+
+Definition mem_parse_head (level_sites : option nat) (m : mem_lmem) (r : mem_lrec) : mem_head_res :=
   let own := m_own m in
   let n := length own in
-  let bad := ROk (m, r, PsMalformed, false) in
-  if Nat.ltb n 32 then bad else
-  match own with
-  | 60 :: _ =>
+  if Nat.ltb n 32 then HdBad r else
+  if negb (mem_first_is 60 own) then HdBad r else
     match mem_next_field own 0 n with
-    | None => bad
+    | None => HdBad r
     | Some e =>
-      if Nat.ltb e 2 then RPanic 4 (* val[len(val)-2:] with len(val) = 1 *)
+      if Nat.ltb e 2 then HdPanic 4 (* val[len(val)-2:] with len(val) = 1 *)
       else
         let val := firstn e own in
-        if negb (bytes_eqb (skipn (e - 2) val) [62; 49]) then bad else
+        if negb (bytes_eqb (skipn (e - 2) val) [62; 49]) then HdBad r else
         match mem_atoi (firstn (e - 3) (skipn 1 val)) with
-        | None => bad
+        | None => HdBad r
         | Some pri =>
           let fac := Z.shiftr pri 3 in
-          if (fac <? 0)%Z || (24 <=? fac)%Z then bad else
+          if (fac <? 0)%Z || (24 <=? fac)%Z then HdBad r else
           let facn := Z.to_nat fac in
           let sev := Z.to_nat (Z.land pri 7) in
           let r1 := mem_set_field r F_facility (EStr (EStatic facn) 0 (length (nth facn mem_static_tbl []))) in
           let r2 := mem_set_field r1 F_level (mem_level_str level_sites m sev) in
           match mem_parse_rest own r2 2 6 (e + 1) (n - e - 1) with
-          | None => ROk (m, r2, PsMalformed, false)   (* fields set so far stay until Release clears them *)
-          | Some (r3, off, len) =>
-            let over := p_max_msg pa <? N.of_nat len in
-            let len1 := if over then N.to_nat (p_max_msg pa) else len in
-            let cleaned :=
-              if (p_max_rec pa <=? N.of_nat n) then mem_clean_utf8 m EOwn off len1 else ROk (m, len1) in
-            mem_rbind cleaned (fun ml =>
-              let '(m', len2) := ml in
-              let r4 := mem_set_field r3 F_log (EStr EOwn off len2) in
-              let msg := firstn len2 (skipn off (m_own m')) in
-              let r5 := {| lr_fields := lr_fields r4; lr_rawlen := lr_rawlen r4; lr_ts := lr_ts r4;
-                           lr_unesc := match mem_index_byte 10 msg with Some _ => true | None => false end |} in
-              ROk (m', r5, PsOk, over))
+          | None => HdBad r2
+          | Some (r3, off, len) => HdOk r3 off len
           end
         end
-    end
-  | _ => bad
+    end.
+
+(* ... then the message: cut at the limit, cleaned IN PLACE when the record is long, Unescaped set.
+   Returns memory, struct, and whether the message overflowed. *)
+Definition mem_parse_msg (pa : mem_params) (m : mem_lmem) (r3 : mem_lrec) (off len : nat)
+  : mem_res (mem_lmem * mem_lrec * bool) :=
+  let n := length (m_own m) in
+  let over := p_max_msg pa <? N.of_nat len in
+  let len1 := if over then N.to_nat (p_max_msg pa) else len in
+  mem_rbind (if (p_max_rec pa <=? N.of_nat n) then mem_clean_utf8 m EOwn off len1 else ROk (m, len1)) (fun ml =>
+    let m' := fst ml in
+    let len2 := snd ml in
+    let msg := firstn len2 (skipn off (m_own m')) in
+    ROk (m', {| lr_fields := mem_list_set (lr_fields r3) F_log (EStr EOwn off len2);
+                lr_rawlen := lr_rawlen r3; lr_ts := lr_ts r3;
+                lr_unesc := match mem_index_byte 10 msg with Some _ => true | None => false end |}, over)).
+
+Definition mem_parse (pa : mem_params) (level_sites : option nat) (m : mem_lmem) (r : mem_lrec)
+  : mem_res (mem_lmem * mem_lrec * mem_parse_status * bool) :=
+  match mem_parse_head level_sites m r with
+  | HdBad r' => ROk (m, r', PsMalformed, false)
+  | HdPanic s => RPanic s
+  | HdOk r3 off len =>
+    mem_rbind (mem_parse_msg pa m r3 off len) (fun x => ROk (fst (fst x), snd (fst x), PsOk, snd x))
   end.
 
 (* ================================================================== *)
@@ -709,7 +724,9 @@ Inductive mem_stop :=
 | NotEnabled            (* the event is not possible in this state (not an execution of the system) *)
 | Dangling              (* a string pointing into another record's memory was dereferenced *)
 | Fault                 (* write to read-only memory *)
-| GoPanic (site : N).   (* negative reference count, index out of range ... *)
+| GoPanic (site : N)    (* a Go panic inside the parser or a transform *)
+| NegativeRefCount      (* LogAllocator.Release: "negative reference count in record" *)
+| PoolIndexPanic.       (* BytesPoolBy2n: index out of range *)
 
 Inductive mem_step_res := StepOk (g : mem_gstate) | StepStop (s : mem_stop).
 
@@ -761,7 +778,7 @@ Definition mem_release (g : mem_gstate) (h : nat) : mem_step_res :=
   | Some s =>
     let r := sl_rec s in
     let rc := (r_refc r - 1)%Z in
-    if (rc <? 0)%Z then StepStop (GoPanic 5)      (* "negative reference count in record" *)
+    if (rc <? 0)%Z then StepStop NegativeRefCount
     else if (0 <? rc)%Z then
       StepOk {| g_slots := mem_upd_slot g h {| sl_rec := {| r_fields := r_fields r; r_rawlen := r_rawlen r; r_ts := r_ts r;
                                                             r_unesc := r_unesc r; r_backbuf := r_backbuf r; r_refc := rc |};
@@ -785,8 +802,7 @@ Definition mem_release (g : mem_gstate) (h : nat) : mem_step_res :=
                     g_bufs := mem_list_set (g_bufs g) b {| b_data := b_data old; b_class := c; b_free := true; b_gen := S (b_gen old) |};
                     g_cfg := g_cfg g; g_dirty := g_dirty g; g_next_rid := g_next_rid g;
                     g_log := g_log g; g_status := g_status g; g_out := g_out g |}
-        | Panic p => StepStop (GoPanic p)
-        | Err _ => StepStop (GoPanic 0)
+        | _ => StepStop PoolIndexPanic
         end
       end
   end.
@@ -859,8 +875,7 @@ Definition mem_new_record (c : mem_config) (g : mem_gstate) (cs cb : option nat)
           | None => inl None
           end
         end
-      | Panic p => inr (GoPanic p)
-      | Err _ => inr (GoPanic 0)
+      | _ => inr PoolIndexPanic
       end
     else
       match cb with
